@@ -121,6 +121,37 @@ def inflate_epilogue(ck, P):
                   "next_in is overwritten before total_in is computed from it", where(fn))
 
 
+def dup_total(ck, P):
+    """inflate() publishes `state.total` as `stream.total_out` on every call (ATOM/inflate-epilogue:total_out), so the two are
+    copies of one quantity.  Any other function of the inflate module that gives total_out a value must give state.total
+    the same value on that path, or the next inflate() call overwrites what it stored."""
+    R = "COUP/dup-total"
+    n = 0
+    for f in sorted(P.fns.values(), key=lambda f: f.path):
+        if not f.path.startswith(Z + "inflate::") or f.is_promoted or f.path == Z + "inflate::inflate":
+            continue
+        tout = [(bi, rv, st) for bi, fp, root, rv, st in f.field_writes() if fp == ("total_out",)]
+        if not tout:
+            continue
+        ck.use_fn(f)
+        tot = [(bi, rv) for bi, fp, root, rv, st in f.field_writes() if fp[-1:] == ("total",) and "state" in fp]
+        # helpers that write state.total on every path (reset_keep through reset)
+        for i, (bi, rv, st) in enumerate(tout):
+            n += 1
+            v = f.const_of(rv)
+            # every path from this write to a return passes a write of state.total with the same value
+            same = {b for b, e in tot if (f.const_of(e) == v if v is not None else mir.fmt(mir.strip_casts(e)) == mir.fmt(mir.strip_casts(rv)))}
+            rets = [b for b, k in f.exits() if k == "return"]
+            ok = bool(same) and not flow.reaches_avoiding(f, [bi], rets, cut_blocks=same - {bi}) or (bi in same)
+            # the same block may hold both writes
+            ok = ok or any(b == bi for b in same)
+            ck.decide(ok, R, "%s:total_out#%d" % (f.path.replace(Z, ""), i), "state.total receives the same value",
+                      "%s stores %s in total_out but leaves state.total as it is: the next inflate() call assigns total_out = state.total and "
+                      "the stored value is lost (totals no longer equal the sums over all calls)"
+                      % (f.path.replace(Z, ""), mir.fmt(rv, f)[:60]), where(f, st.get("line") if isinstance(st, dict) else None))
+    ck.floor(R, n, 2)
+
+
 def one_shot(ck, P):
     R = "ATOM/one-shot"
     u2 = P.fn(Z + "inflate::uncompress2")
@@ -202,6 +233,7 @@ def run(ck):
     ck.configs.add("K1")
     coupdate(ck, P)
     inflate_epilogue(ck, P)
+    dup_total(ck, P)
     one_shot(ck, P)
     deflate_buferror(ck, P)
     ck.assumptions += ["rustc MIR", "exception table for functions that assign rather than adjust", "host target; K1"]
